@@ -103,6 +103,13 @@ func H_C10_Crash() {
 		vObserveInt("crashedAt", crashedAt)
 	}
 	vReach("c10.crashed")
+	// known finding (recorded per property): the sparse index files are written at rotation and at the
+	// end of a commit without any ordering against the data files, so a crash in sparse mode can leave
+	// them missing or half-written
+	sparse := mode == HintBPTSparseIdxMode
+	vKnown("KF-C09-sparse-crash", sparse)
+	vKnown("KF-C10-sparse-crash", sparse)
+	vKnown("KF-C11-sparse-crash", sparse)
 	db2, err := Open(optB)
 	vAssert("c09.open-after-crash", err == nil)
 	if err != nil {
